@@ -79,37 +79,39 @@ def build_and_audit(prop: str, tier: str):
         ok, log = common.lake_build(["CRModel", "Driver", "crdriver"])
         if not ok:
             raise InfraError("model/driver build failed:\n" + log[-3000:])
-        mod = f"CRProps.{prop}"
-        ok, log = common.lake_build([mod])
-        declared = common.declared_theorems(prop)
-        info["obligations"] = len(declared)
-        if not ok:
-            info["broken"].append({"obligation": f"lake build {mod}", "log": log[-4000:]})
-            info["notes"].append("proof module does not compile")
-            return info
+        pmod = load_module(prop)
+        mods = [f"CRProps.{prop}"] + list(getattr(pmod, "EXTRA_MODULES", []))
+        info["modules"] = mods
         hits = common.grep_forbidden()
         if hits:
             info["broken"].append({"obligation": "forbidden-construct grep", "log": "\n".join(hits)})
-        thms, alog, rc = common.audit_module(mod)
-        if rc != 0:
-            info["broken"].append({"obligation": f"axiom audit {mod}", "log": alog[-3000:]})
-        info["theorems"] = {k: v for k, v in thms.items() if any(k == d or k.endswith("." + d) for d in declared)}
-        done = 0
-        for name in declared:
-            full = [k for k in thms if k == name or k.endswith("." + name)]
-            if not full:
-                info["broken"].append({"obligation": name, "log": "theorem not found in compiled module"})
+        for mod in mods:
+            declared = common.declared_theorems(mod.split(".")[-1])
+            info["obligations"] += len(declared)
+            ok, log = common.lake_build([mod])
+            if not ok:
+                info["broken"].append({"obligation": f"lake build {mod}", "log": log[-4000:]})
+                info["notes"].append(f"proof module {mod} does not compile")
                 continue
-            bad = [a for a in thms[full[0]] if a not in common.ALLOWED_AXIOMS]
-            if bad:
-                info["broken"].append({"obligation": name, "log": f"depends on disallowed axioms {bad}"})
-                continue
-            done += 1
-        info["discharged"] = done
+            thms, alog, rc = common.audit_module(mod)
+            if rc != 0:
+                info["broken"].append({"obligation": f"axiom audit {mod}", "log": alog[-3000:]})
+            info["theorems"].update({k: v for k, v in thms.items() if any(k == d or k.endswith("." + d) for d in declared)})
+            for name in declared:
+                full = [k for k in thms if k == name or k.endswith("." + name)]
+                if not full:
+                    info["broken"].append({"obligation": name, "log": "theorem not found in compiled module"})
+                    continue
+                bad = [a for a in thms[full[0]] if a not in common.ALLOWED_AXIOMS]
+                if bad:
+                    info["broken"].append({"obligation": name, "log": f"depends on disallowed axioms {bad}"})
+                    continue
+                info["discharged"] += 1
+        mod = " ".join(mods)
         if tier == "thorough" and not info["broken"]:
             import subprocess
             try:
-                p = subprocess.run(["lake", "env", "leanchecker", mod], cwd=common.LEAN, stdout=subprocess.PIPE,
+                p = subprocess.run(["lake", "env", "leanchecker"] + mods, cwd=common.LEAN, stdout=subprocess.PIPE,
                                    stderr=subprocess.STDOUT, text=True, timeout=3000)
                 info["leanchecker"] = "ok" if p.returncode == 0 else "FAILED"
                 if p.returncode != 0:
@@ -129,11 +131,12 @@ def write_replay(prop, name, obj):
 
 def write_evidence(prop, tier, seed, build, m, wall, violations, known_hit, mod):
     os.makedirs(common.EVIDENCE_DIR, exist_ok=True)
+    mods_txt = " ".join(build.get("modules", [f"CRProps.{prop}"]))
     cov = {
         "obligations": build["obligations"],
         "discharged": build["discharged"],
-        "checker_cmd": f"cd lean && lake build CRProps.{prop} && lake env lean <audit: collectAxioms on every theorem of CRProps.{prop}>"
-                       + ("; lake env leanchecker CRProps.%s" % prop if tier == "thorough" else ""),
+        "checker_cmd": "cd lean && lake build %s && lake env lean <audit: collectAxioms on every theorem of these modules>" % mods_txt
+                       + ("; lake env leanchecker %s" % mods_txt if tier == "thorough" else ""),
         "trusted_base": common.TRUSTED_BASE + list(getattr(mod, "TRUSTED", [])),
         "theorems": build["theorems"],
         "translators": build.get("translators", {}),
